@@ -107,8 +107,12 @@ func (fr *Frame) cutLoop(li *loopInfo, st *State, preds []*ssa.BasicBlock, pstat
 		}
 		// 3. havoc
 		if rc.dryAll {
+			// unknown code runs in the body: ordinary memory is arbitrary at the cut ...
 			vc.havocAll(st)
-		} else {
+		}
+		{
+			// ... and so is every family the body assigns (ghost state included, which unknown
+			// code cannot touch but the body's own calls can)
 			keys := make([]string, 0, len(rc.dryMods))
 			for k := range rc.dryMods {
 				keys = append(keys, k)
@@ -127,7 +131,7 @@ func (fr *Frame) cutLoop(li *loopInfo, st *State, preds []*ssa.BasicBlock, pstat
 					st.heap[k] = neu
 					continue
 				}
-				vc.havocFam(st, k)
+				vc.havocFamRaw(st, k)
 			}
 			// ... and is assumed for the arbitrary iteration
 			fr.loopFrameAssume(st, keys)
@@ -234,9 +238,23 @@ func (fr *Frame) backEdge(li *loopInfo, from *ssa.BasicBlock, es *State) {
 			continue
 		}
 		if fr.dry == 0 {
-			vc.instantiateAt(sks)
+			vc.instantiateForGoal(t, sks)
 		}
 		vc.oblige(es, "inv_keep", fr.loopName(li)+":"+clauseLabel(inv), t, li.pos, inv.Text)
+	}
+	// per-iteration postconditions: old() is the state at the start of this iteration
+	for _, ie := range li.spec.IterEns {
+		fr.evalPoint = from
+		t, sks, err := fr.evalGoal(ie, es, li.hdrState, nil)
+		fr.evalPoint = nil
+		if err != nil {
+			vc.errs = append(vc.errs, fmt.Sprintf("%s:%d: %v", ie.File, ie.Line, err))
+			continue
+		}
+		if fr.dry == 0 {
+			vc.instantiateForGoal(t, sks)
+			vc.oblige(es, "iter_post", fr.loopName(li)+":"+clauseLabel(ie), t, li.pos, ie.Text)
+		}
 	}
 	if li.spec.Decreases != nil {
 		v, _, err := fr.evalExprText(li.spec.Decreases.Text, es, fr.entry, nil)
